@@ -271,10 +271,13 @@ def abs_c16(w, sess, frames, t0, hs_len, res):
                 st = state[u]
                 lk = wire.qn_str([l.lower() for l in r["labels"]])
                 held = []
+                heldx = []
                 for key in ("qname", "qrsname"):
                     if st[key]:
                         held.append(bytes.fromhex(st[key]).lower())
+                        heldx.append(bytes.fromhex(st[key]))
                 me = b".".join(r["labels"]).lower()
+                mex = b".".join(r["labels"])
                 cur = {"u": u, "src": r["src"], "id": r["id"],
                        "ev": {"e": "Redeliver", "u": u, "nm": r["qn"], "lk": lk, "kind": cls["kind"],
                               "pending": me in held, "pos0": _pos(st), "pos1": [], "answered": False,
@@ -282,7 +285,7 @@ def abs_c16(w, sess, frames, t0, hs_len, res):
                                                                    "flip " if tag["flip"] else "",
                                                                    "otherport" if tag["otherport"] else "", tag["back"])}}
                 evs.append({"e": "RedBegin", "u": u, "nm": r["qn"], "lk": lk, "kind": cls["kind"],
-                            "pending": me in held})
+                            "pending": me in held, "pendingx": mex in heldx})
         elif k == "send" and not r["raw"] and r.get("dns") and r.get("qr"):
             cls = r["cls"]
             pl = r.get("payload")
